@@ -11,6 +11,7 @@ import (
 	"fmt"
 	"net"
 	"os"
+	"runtime/debug"
 	"strings"
 	"sync"
 	"testing"
@@ -309,6 +310,33 @@ func vC10Scenario(name string, seed uint64) string {
 		time.Sleep(50 * time.Millisecond)
 		// the peer drains what was sent and must then see the end of the connection
 		return w.aftermath([]*websocket.Conn{c}, took)
+	case "peers-closed-first":
+		// the peers end their sessions (with and without a close frame); the server must give the
+		// sockets back when the sessions end - no collection cycle is forced here
+		debug.SetGCPercent(-1)
+		w := vC10Setup(r)
+		base := vSocketFDs() // the listener
+		for i := 0; i < 3; i++ {
+			c, err := vRawDial(w.addr, w.keys[i], w.skey.Pub)
+			if err != nil {
+				return "setup"
+			}
+			vWaitUntil(2*time.Second, func() bool { return w.s.OpenConnections() == 1 })
+			if i%2 == 0 {
+				c.WriteControl(websocket.CloseMessage, websocket.FormatCloseMessage(websocket.CloseNormalClosure, ""), time.Now().Add(time.Second))
+			}
+			c.Close()
+			vWaitUntil(2*time.Second, func() bool { return w.s.OpenConnections() == 0 })
+		}
+		time.Sleep(80 * time.Millisecond)
+		if n := vSocketFDs() - base; n > 0 {
+			return fmt.Sprintf("socket-left-after-session-end/%d", n)
+		}
+		start := time.Now()
+		if !vStop(w.s, 6*time.Second) {
+			return "stop-hangs/" + strings.Join(vParked(), ",")
+		}
+		return w.aftermath(nil, time.Since(start))
 	case "concurrent-admin":
 		w := vC10Setup(r)
 		c, err := vRawDial(w.addr, w.keys[0], w.skey.Pub)
